@@ -1,4 +1,5 @@
 import KitModel.Spiffe
+import KitModel.SpiffeShape
 import KitProofs.Lemmas.Spiffe
 import KitProofs.Lemmas.SpiffeRenew
 /-!
@@ -7,6 +8,66 @@ half-life.  Theorems about the models in `KitModel/Spiffe.lean` (helpers in
 `KitProofs/Lemmas/Spiffe.lean`).
 -/
 namespace Kit.Spiffe
+
+/-! ## T1: the source, as regenerated on this run, has the shape the models were written from -/
+
+open Kit.Generated.C19 in
+/-- The statement order of `Run`, `Ready`, `GetX509SVID` and `runRotation` extracted from /repo on
+this run (`KitModel/Generated/C19.lean`) equals the order read back out of the LTS by executing it
+(`KitModel/SpiffeShape.lean`):
+* `Run`: CAS → Lock → fetch → set currentSVID → close(readyCh) → Unlock → runRotation → return nil; on
+  a failed fetch close(readyCh) → Unlock → return err — BOTH branches close `readyCh`;
+* `Ready`: one select over ctx.Done() / readyCh;
+* `GetX509SVID`: wait for readyCh, THEN RLock, read, deferred RUnlock (the old order RLock → wait is
+  what `modelGet .cur` yields, and fails here);
+* `runRotation`: RLock/RUnlock prelude; per renewal: fetch into a LOCAL, then Lock → set → Unlock; on
+  a failed fetch nothing touches currentSVID;
+* wake rule `After(min(CAP, renewTime − now))`, "continue before renew time" first, retry select;
+* the automaton's constants ARE the source's (`minute`, `tenSec`, divisor of `renewalTime`), and they
+  are the property's: one minute, ten seconds, half;
+* `fetchIdentityCertificate`: fresh P-256 key → CSR of that key → request → guards → (with a write
+  directory) encode that key, that chain, current anchors → ONE `dir.Write` of the three → SVID of that
+  key and chain. -/
+theorem source_shape_as_modelled :
+    Shape.okPath runMain = Shape.modelRunOk ++ Shape.modelRotStop ∧
+    Shape.errPath runMain runOnErr = Shape.modelRunErr ∧
+    readyBody = Shape.modelReady .fixed ∧
+    Shape.resolveDefer getBody = Shape.modelGet .fixed ∧ Shape.deferFollowsRLock getBody = true ∧
+    rotPrelude.filter Shape.isSync = Shape.modelRotPrelude ∧
+    Shape.okPath rotBody = Shape.modelRenewOk ∧
+    Shape.errPath rotBody rotOnErr = Shape.modelRenewErr ∧
+    rotCtxCase = [.ret] ∧ rotArm = [.armMinCapUntilRenew] ∧
+    rotBody.head? = some .ifBeforeRenewContinue ∧ rotOnErr = [.retryWaitContinue, .ctxDoneReturn] ∧
+    minute = wakeCapNs ∧ tenSec = retryNs ∧ wakeCapNs = 60000000000 ∧ retryNs = 10000000000 ∧
+    renewalDivisor = 2 ∧
+    fetchMain = Shape.fetchMainExpected ∧ fetchDir = Shape.fetchDirExpected ∧ Shape.fetchProbe = true := by
+  decide
+
+/-- The renewal automaton applies exactly the source's rules (all states, not probes): the timer is
+armed for `min(CAP, renewAt − now)`; a wake before the renewal time only re-arms; a failed fetch arms
+`RETRY` and leaves the SVID; `renewalTime` is the source's formula. -/
+theorem rotation_rules_as_source :
+    (∀ s : RN, (arm s).wakeAt = s.now + min Kit.Generated.C19.wakeCapNs (s.renewAt - s.now)) ∧
+    (∀ s : RN, s.mode = .waiting → s.now < s.renewAt → wake s = arm s) ∧
+    (∀ s : RN, s.mode = .waiting → s.renewAt ≤ s.now → (fetch s).2 = none →
+      (wake s).wakeAt = s.now + Kit.Generated.C19.retryNs ∧ (wake s).svid = s.svid ∧ (wake s).mode = .retrying) ∧
+    (∀ nb na : Int, renewalTime nb na = nb + (na - nb).tdiv Kit.Generated.C19.renewalDivisor) := by
+  refine ⟨fun s => (arm_fields s).2.1, ?_, ?_, fun _ _ => rfl⟩
+  · intro s hm hlt
+    rcases wake_cases s with ⟨h, _⟩ | ⟨h, _⟩ | ⟨_, _, hw⟩ | ⟨_, hle, _⟩ | ⟨_, hle, _⟩
+    · rw [hm] at h; cases h
+    · rw [hm] at h; cases h
+    · exact hw
+    · omega
+    · omega
+  · intro s hm hle hnone
+    have fs := fetch_spec s
+    rcases wake_cases s with ⟨h, _⟩ | ⟨h, _⟩ | ⟨_, hlt, _⟩ | ⟨_, _, _, hw⟩ | ⟨_, _, c, hc, _⟩
+    · rw [hm] at h; cases h
+    · rw [hm] at h; cases h
+    · omega
+    · rw [hw]; exact ⟨rfl, fs.svid, rfl⟩
+    · rw [hnone] at hc; cases hc
 
 /-- **No deadlock, whatever the order of first calls** (repaired code).  From every reachable state
 of the readiness LTS — any number of `Ready`/`GetX509SVID` callers, any interleaving, any ctx
